@@ -417,6 +417,13 @@ pub fn check_history(t: &Trace, programs: &[Vec<(u8, ROp)>], pid: &str) -> Vec<V
         }
         false
     }
+    crate::check::oblige("registry-linearizable");
+    if events.iter().filter(|e| matches!(e.kind, HKind::Op { concurrent: true, .. })).count() >= 2 {
+        crate::check::oblige("registry-linearizable-concurrent-history");
+    }
+    if events.iter().any(|e| matches!(e.kind, HKind::Term { .. })) {
+        crate::check::oblige("registry-history-with-termination");
+    }
     if !search(0, &init, &events, &mut seen, &hold_probe) {
         // name the operations involved for the key: the multiset of op kinds with results
         let mut kinds: Vec<String> = events
@@ -569,6 +576,7 @@ pub fn property() -> Property {
     Property {
         id: "C08",
         cases,
+        clauses: &["registry-linearizable", "registry-linearizable-concurrent-history", "registry-history-with-termination"],
         assumptions: &[
             "identity of a returned address is observed by a call through it (hannibal offers no public identity); a dead address has no observable identity and is matched against the model's prediction",
             "release semantics (debug_assert!(ping) in from_registry compiled out) in the primary build",
